@@ -48,6 +48,8 @@ type Obligation struct {
 func (o Obligation) Key() string { return o.Rule + "|" + o.Construct }
 
 type Ctx struct {
+	// InlineLog: what the [INLINE] pre-pass did (empty on the pinned tree).
+	InlineLog []string
 	// RuleAlias, when set, replaces the rule id of every obligation recorded (a rule shared by another property).
 	RuleAlias string
 	RepoDir string
@@ -80,28 +82,80 @@ func Load(repo string, overlay map[string][]byte) (*Ctx, error) {
 		Overlay: goOverlay,
 		Env:     append(os.Environ(), "GOWORK=off", "GOFLAGS=-mod=mod", "GOPROXY=off", "GOTOOLCHAIN=local"),
 	}
-	pkgs, err := packages.Load(cfg, "./...")
+	loadOnce := func() ([]*packages.Package, error) {
+		pkgs, err := packages.Load(cfg, "./...")
+		if err != nil {
+			return nil, fmt.Errorf("load: %w", err)
+		}
+		if len(pkgs) < 60 {
+			return nil, fmt.Errorf("load: only %d packages loaded (expected the whole repository, >= 60)", len(pkgs))
+		}
+		var errs []string
+		for _, p := range pkgs {
+			for _, e := range p.Errors {
+				errs = append(errs, e.Error())
+			}
+		}
+		if len(errs) > 0 {
+			if len(errs) > 10 {
+				errs = errs[:10]
+			}
+			return nil, fmt.Errorf("load: type errors:\n%s", strings.Join(errs, "\n"))
+		}
+		return pkgs, nil
+	}
+	pkgs, err := loadOnce()
 	if err != nil {
-		return nil, fmt.Errorf("load: %w", err)
+		return nil, err
 	}
-	if len(pkgs) < 60 {
-		return nil, fmt.Errorf("load: only %d packages loaded (expected the whole repository, >= 60)", len(pkgs))
-	}
-	var errs []string
-	for _, p := range pkgs {
-		for _, e := range p.Errors {
-			errs = append(errs, e.Error())
+	// [INLINE] expand helpers that are not part of the pinned tree (see inline.go); at most 4 rounds (nested helpers)
+	var inlineLog []string
+	counter := 0
+	readFile := func(abs string) ([]byte, error) {
+		if b, ok := goOverlay[abs]; ok {
+			return b, nil
 		}
+		return os.ReadFile(abs)
 	}
-	if len(errs) > 0 {
-		if len(errs) > 10 {
-			errs = errs[:10]
+	for round := 0; round < 4; round++ {
+		files, log := inlineRound(pkgs, readFile, &counter)
+		inlineLog = append(inlineLog, log...)
+		if len(files) == 0 {
+			break
 		}
-		return nil, fmt.Errorf("load: type errors:\n%s", strings.Join(errs, "\n"))
+		saved := map[string][]byte{}
+		for k, v := range files {
+			if old, ok := goOverlay[k]; ok {
+				saved[k] = old
+			} else {
+				saved[k] = nil
+			}
+			goOverlay[k] = v
+		}
+		pk2, err2 := loadOnce()
+		if err2 != nil {
+			// the expansion does not type-check: analyse the program as written
+			inlineLog = append(inlineLog, "inline: expansion rejected, analysing the program as written: "+strings.SplitN(err2.Error(), "\n", 3)[min(1, len(strings.SplitN(err2.Error(), "\n", 3))-1)])
+			for k, v := range saved {
+				if v == nil {
+					delete(goOverlay, k)
+				} else {
+					goOverlay[k] = v
+				}
+			}
+			if os.Getenv("VERIF_INLINE_DEBUG") != "" {
+				for k, v := range files {
+					_ = os.WriteFile("/tmp/inline-debug-"+filepath.Base(k), v, 0o644)
+				}
+				fmt.Fprintln(os.Stderr, err2)
+			}
+			break
+		}
+		pkgs = pk2
 	}
 	prog, spkgs := ssautil.Packages(pkgs, ssa.InstantiateGenerics)
 	prog.Build()
-	c := &Ctx{RepoDir: repo, Pkgs: pkgs, ByPath: map[string]*packages.Package{}, Prog: prog,
+	c := &Ctx{InlineLog: inlineLog, RepoDir: repo, Pkgs: pkgs, ByPath: map[string]*packages.Package{}, Prog: prog,
 		SSA: map[string]*ssa.Package{}, FuncsSeen: map[string]bool{}, FileOverlay: overlay}
 	for i, p := range pkgs {
 		c.ByPath[p.PkgPath] = p
